@@ -1,6 +1,7 @@
 """C03 — Noise sessions interoperate with any conformant responder, for any chunking."""
 
-from vf.props import noise_common
+from vf import connsim
+from vf.props import conn_common, noise_common
 
 
 def run(ctx):
@@ -11,6 +12,17 @@ def run(ctx):
     )
     noise_common.run_noise(ctx, "honest")
 
+    # connection level: application frames sharing a chunk with the handshake reply reach a subscriber that
+    # listens from before the handshake; the client writes nothing before the handshake is complete
+    def build(ctx, rng):
+        return {"hs_chunk": connsim.c03_conn_family(rng)}
+
+    conn_common.dedicated(ctx, "c03conn", [], build)
+    ctx.rule += "; connection level: frames in the same chunk as / right behind the handshake reply, observed on the real APIConnection and validated by TLC (TraceConnection.tla)"
+
 
 def replay(ctx, case):
-    noise_common.replay_case(ctx, case)
+    if case.get("kind") == "conn-trace":
+        conn_common.replay_case(ctx, case)
+    else:
+        noise_common.replay_case(ctx, case)
